@@ -146,7 +146,7 @@ def best_allowed(cands, elig):
     return False
 
 
-SCORE_RE = re.compile(r'^([+-])?(\d+(?:\.\d+)?)(%)?$')
+SCORE_RE = re.compile(r'^([+-])?(\d+\.?\d*|\.\d+)(%)?$')     # 5, 0.25, .25, 1. (documented: "+20%" == "+.2" == .2)
 
 
 def score_value(score):
